@@ -146,9 +146,57 @@ class Base:
         st.assume(z3.Implies(smt.is_ref(v), Val.r(v) < st.alloc))
         return sv
 
-    def store_field(self, st, ref_term, field, val_term):
+    def store_field(self, st, ref_term, field, val_term, node=None):
+        self.check_write(st, Val.r(ref_term), field, node)
         st.setH(field, z3.Store(st.H(field), Val.r(ref_term), val_term))
         self.written.add(field)
+
+    # ---------------------------------------------------------------- frame (modifies) discipline
+    def allowed_refs(self, field):
+        """refs (int terms over the entry state) whose `field` the contract allows to be written;
+        None = any object.  Objects allocated during the call may always be written."""
+        if self.con.modifies is None:
+            return None
+        if not hasattr(self, "_allowed"):
+            self._allowed = {}
+            entry = self.entry
+            for m in self.con.modifies:
+                if m in ("fresh",):
+                    continue
+                if m == "*":
+                    self._allowed = None
+                    break
+                if m.startswith("*."):
+                    self._allowed[m[2:]] = None
+                    continue
+                if m.endswith("[]") or m.endswith("{}"):
+                    tgt = self.spec_val(m[:-2], entry, entry.locals, old=entry)
+                    for f in (("$items", "$len") if m.endswith("[]") else ("$dhas", "$dval", "$len")):
+                        if self._allowed.get(f, []) is not None:
+                            self._allowed.setdefault(f, []).append(Val.r(tgt.t))
+                    continue
+                objsrc, f = m.rsplit(".", 1)
+                tgt = self.spec_val(objsrc, entry, entry.locals, old=entry)
+                if self._allowed.get(f, []) is not None:
+                    self._allowed.setdefault(f, []).append(Val.r(tgt.t))
+        if self._allowed is None:
+            return None
+        return self._allowed.get(field, [])
+
+    def check_write(self, st, ref_int, field, node=None, what=None):
+        if self.con.modifies is None or self.entry is None:
+            return
+        al = self.allowed_refs(field)
+        if al is None:
+            return
+        g = z3.Or(ref_int >= self.entry.alloc, *[ref_int == a for a in al])
+        self.oblige(st, g, "frame", node, what or f"write to .{field} is allowed by modifies {self.con.modifies}")
+
+    def check_write_all(self, st, field, node=None):
+        if self.con.modifies is None or self.entry is None:
+            return
+        if self.allowed_refs(field) is not None:
+            self.oblige(st, z3.BoolVal(False), "frame", node, f"callee may write .{field} of any object; not allowed by modifies {self.con.modifies}")
 
     def new_ref(self, st, cls_id=None, cls=None):
         r = st.alloc
@@ -182,7 +230,9 @@ class Base:
             return self.typed(st, v, elemtype)
         return SV(v)
 
-    def set_list(self, st, ref_term, items, length):
+    def set_list(self, st, ref_term, items, length, node=None, fresh=False):
+        if not fresh:
+            self.check_write(st, Val.r(ref_term), "$items", node, "write to list contents is allowed by modifies")
         st.setH("$items", z3.Store(st.H("$items"), Val.r(ref_term), items))
         st.setH("$len", z3.Store(st.H("$len"), Val.r(ref_term), length))
         self.written.add("$items")
@@ -193,7 +243,7 @@ class Base:
         arr = smt.fresh("items", z3.ArraySort(IntS, Val))
         for k, e in enumerate(elems):
             arr = z3.Store(arr, k, e)
-        self.set_list(st, ref, arr, z3.IntVal(len(elems)))
+        self.set_list(st, ref, arr, z3.IntVal(len(elems)), fresh=True)
         return ref
 
     def list_slice_copy(self, st, ref_term, lo, hi, kind=smt.CLS_LIST):
@@ -204,7 +254,7 @@ class Base:
         arr = smt.fresh("slice", z3.ArraySort(IntS, Val))
         j = z3.Int("j!sl")
         st.assume(z3.ForAll([j], z3.Implies(z3.And(j >= 0, j < n), z3.Select(arr, j) == z3.Select(src, lo + j)), patterns=[z3.Select(arr, j)]))
-        self.set_list(st, ref, arr, n)
+        self.set_list(st, ref, arr, n, fresh=True)
         return ref
 
     def clamp_slice(self, st, n, lo_sv, hi_sv):
@@ -226,8 +276,10 @@ class Base:
     def dict_val(self, st, ref_term, key):
         return z3.Select(z3.Select(st.H("$dval"), Val.r(ref_term)), key)
 
-    def dict_store(self, st, ref_term, key, val):
+    def dict_store(self, st, ref_term, key, val, fresh=False):
         r = Val.r(ref_term)
+        if not fresh:
+            self.check_write(st, r, "$dhas", None, "write to dict/set contents is allowed by modifies")
         has = z3.Select(st.H("$dhas"), r)
         n = z3.Select(st.H("$len"), r)
         st.setH("$len", z3.Store(st.H("$len"), r, z3.If(z3.Select(has, key), n, n + 1)))
@@ -239,6 +291,7 @@ class Base:
 
     def dict_del(self, st, ref_term, key):
         r = Val.r(ref_term)
+        self.check_write(st, r, "$dhas", None, "write to dict/set contents is allowed by modifies")
         has = z3.Select(st.H("$dhas"), r)
         n = z3.Select(st.H("$len"), r)
         st.setH("$len", z3.Store(st.H("$len"), r, z3.If(z3.Select(has, key), n - 1, n)))
@@ -399,6 +452,8 @@ class Base:
     def py_eq(self, st, a, b):
         """Python `==` as a z3 Bool (numbers numerically; everything else structurally / by identity)."""
         ta, tb = a.t, b.t
+        if a.ty == "int" and b.ty == "int":
+            return Val.i(ta) == Val.i(tb)
         if a.ty in ("int", "bool") and b.ty in ("int", "bool"):
             return smt.num(ta) == smt.num(tb)
         simple = ("str", "none", "func")
